@@ -1,0 +1,22 @@
+//go:build verif
+
+package main
+
+import (
+	"log/slog"
+	"os"
+	"time"
+)
+
+// verifPoint is a scheduling point for runtime verification. It exists only in
+// builds with the `verif` tag: it logs the point and sleeps for the duration
+// given in the environment variable VERIF_POINT_<name> (if any).
+func verifPoint(name string) {
+	d, err := time.ParseDuration(os.Getenv("VERIF_POINT_" + name))
+	if err != nil || d <= 0 {
+		return
+	}
+	slog.Info("verif point reached", "point", name, "sleep", d)
+	time.Sleep(d)
+	slog.Info("verif point left", "point", name)
+}
